@@ -1236,6 +1236,7 @@ def check(rep, tier, seed, driver):
                     rep.violation("harness exception on a case: " + p["what"][:300], {"kind": "harness-crash", "case": case, "trace": p["what"]}, False, {"kind": "crash"})
             else:
                 report(rep, case, p, driver, reported, do_shrink=(p["oracle"] != "model"))
+    wide_seed_check(rep, rng)
     if SCAN.get("offending"):
         dynamic_kinds |= probe_for_static(rep, driver, reported)
     acc = rep.evaluations - rep.hist.get("rejected_by_library", 0)
@@ -1251,6 +1252,46 @@ def check(rep, tier, seed, driver):
         rep.violation("the inventory scan misclassifies its own self-test snippets: %s" % selftest["failed"][:3], {"kind": "harness", "selftest": selftest}, False,
                       {"kind": "rng-inventory-scan-failed"})
     rep.extra["harness_wall_s"] = round(time.time() - t_start, 1)
+
+
+def wide_seed_check(rep, rng):
+    """'components given different seeds draw different streams' for seeds that differ only above bit 32 / bit 64 (SeedSequence().entropy,
+    time_ns()-style seeds): the random CVT centroid methods and a plain emitter must not fold the seed into fewer bits.  sklearn's k_means
+    rejects seeds >= 2**32, so kmeans is left out."""
+    from ribs.archives import CVTArchive, GridArchive
+    from ribs.emitters import GaussianEmitter
+    s0 = rng.randrange(1, 1 << 31)
+    seeds = [s0, s0 + (1 << 32), s0 + (1 << 33), s0 + (1 << 64)]
+    for method in ("random", "scrambled_sobol", "halton"):
+        cents = []
+        for sd in seeds:
+            rep.count("wide_seed_constructions")
+            try:
+                a = CVTArchive(solution_dim=2, cells=8, ranges=[(-1.0, 1.0)] * 2, seed=sd, centroid_method=method)
+            except Exception as ex:   # a library that rejects wide seeds outright says so; nothing to compare
+                rep.count("wide_seed_rejected")
+                cents.append(None)
+                continue
+            cents.append(np.array(a.centroids))
+        for i in range(len(seeds)):
+            for j in range(i + 1, len(seeds)):
+                if cents[i] is not None and cents[j] is not None and np.array_equal(cents[i], cents[j]):
+                    rep.violation("CVTArchive(centroid_method=%r): seeds %d and %d give identical centroids" % (method, seeds[i], seeds[j]),
+                                  {"kind": "property", "broken": "components given different seeds draw different streams", "method": method,
+                                   "seeds": [str(seeds[i]), str(seeds[j])], "centroids": cents[i].tolist()}, True,
+                                  {"kind": "different-seeds-same-stream", "component": "archive"})
+                    return
+    rows = []
+    for sd in seeds:
+        arch = GridArchive(solution_dim=3, dims=[4, 4], ranges=[(-1.0, 1.0)] * 2)
+        rows.append(np.array(GaussianEmitter(arch, sigma=0.3, x0=np.zeros(3), batch_size=4, seed=sd).ask()))
+    for i in range(len(seeds)):
+        for j in range(i + 1, len(seeds)):
+            if np.array_equal(rows[i], rows[j]):
+                rep.violation("GaussianEmitter: seeds %d and %d give the same first ask" % (seeds[i], seeds[j]),
+                              {"kind": "property", "broken": "components given different seeds draw different streams", "seeds": [str(seeds[i]), str(seeds[j])],
+                               "rows": rows[i].tolist()}, True, {"kind": "different-seeds-same-stream", "component": "emitter"})
+                return
 
 
 # ---------------------------------------------------------------------------------------------------------------
